@@ -62,6 +62,11 @@ ENTRY_HOOKS = [
     ),
     dict(
         file="agent/consul/server.go",
+        header=r"^func \(s \*Server\) IsLeader\(\) bool \{\s*$",
+        insert="\tif h := verifHooksFor(s); h != nil && h.IsLeader != nil {\n\t\treturn h.IsLeader()\n\t}\n",
+    ),
+    dict(
+        file="agent/consul/server.go",
         header=r"^func \(s \*Server\) RPC\(ctx context\.Context, method string, args interface\{\}, reply interface\{\}\) error \{\s*$",
         insert="\tif h := verifHooksFor(s); h != nil && h.RPC != nil {\n\t\treturn h.RPC(ctx, method, args, reply)\n\t}\n",
     ),
@@ -71,10 +76,11 @@ ENTRY_HOOKS = [
 def gen_entry_hooks(overlay):
     outdir = os.path.join(BUILD, "patched")
     os.makedirs(outdir, exist_ok=True)
+    texts = {}
     for h in ENTRY_HOOKS:
         src = os.path.join(REPO, h["file"])
         try:
-            text = open(src).read()
+            text = texts.get(src) or open(src).read()
         except OSError as e:
             raise BuildError(f"entry hook: cannot read {src}: {e}")
         lines = text.split("\n")
@@ -87,7 +93,8 @@ def gen_entry_hooks(overlay):
         i = hits[0]
         lines.insert(i + 1, h["insert"].rstrip("\n"))
         out = os.path.join(outdir, h["file"].replace("/", "__"))
-        write_if_changed(out, "\n".join(lines))
+        texts[src] = "\n".join(lines)
+        write_if_changed(out, texts[src])
         overlay[src] = out
 
 
